@@ -71,6 +71,7 @@ package main
 
 // no `config` parameter: nothing is read; a file that cannot be read or parsed is an error
 //@ func Config.readFromYaml
+//@ propagates [C16]
 //@ requires c != nil
 //@ define path = old(strings.TrimSpace(c.params["config"]))
 //@ modifies *c
@@ -82,6 +83,7 @@ package main
 // errors of either step fail the whole configuration; no types => error; a parameter given on the
 // command line determines the field whatever the YAML file said
 //@ func ReadConfig
+//@ propagates [C16]
 //@ ghost k0 string
 //@ define p(n) = strings.TrimSpace(params[n])
 //@ define path = p("config")
@@ -183,6 +185,7 @@ package main
 // repeated -> List, map -> Map; a cast type replaces only the Go type values are converted back to.
 // The oracle rows below are written out from the documentation, not taken from the code's tables.
 //@ func FieldBuildContext.GetTerraformType
+//@ pure
 //@ requires wfc(c) && c.field.Type != nil
 //@ define p = c.field.FieldDescriptorProto
 //@ define ty = *c.field.Type
@@ -224,7 +227,9 @@ package main
 //@ ensures [C02,C13,C19,C20,C18] imp(!isT && !isD && ty == descriptor.FieldDescriptorProto_TYPE_BYTES, result1 == nil && same(result0, row(tString, "[]byte")))
 //@ ensures [C02,C13,C19,C20,C18] imp(!isT && !isD && ty == descriptor.FieldDescriptorProto_TYPE_ENUM, result1 == nil && same(result0, row(tInt64, elem)))
 //@ ensures [C02,C13,C19,C20,C18] imp(!isT && !isD && ty == descriptor.FieldDescriptorProto_TYPE_MESSAGE, result1 == nil && same(result0, row(tObject, "")))
-//@ ensures [C18] imp(!isT && !isD && ty == descriptor.FieldDescriptorProto_TYPE_GROUP, result1 != nil)
+//@ define known = ty == descriptor.FieldDescriptorProto_TYPE_DOUBLE || ty == descriptor.FieldDescriptorProto_TYPE_FLOAT || ty == descriptor.FieldDescriptorProto_TYPE_INT64 || ty == descriptor.FieldDescriptorProto_TYPE_UINT64 || ty == descriptor.FieldDescriptorProto_TYPE_INT32 || ty == descriptor.FieldDescriptorProto_TYPE_UINT32 || ty == descriptor.FieldDescriptorProto_TYPE_FIXED64 || ty == descriptor.FieldDescriptorProto_TYPE_FIXED32 || ty == descriptor.FieldDescriptorProto_TYPE_SFIXED32 || ty == descriptor.FieldDescriptorProto_TYPE_SFIXED64 || ty == descriptor.FieldDescriptorProto_TYPE_SINT32 || ty == descriptor.FieldDescriptorProto_TYPE_SINT64 || ty == descriptor.FieldDescriptorProto_TYPE_BOOL || ty == descriptor.FieldDescriptorProto_TYPE_STRING || ty == descriptor.FieldDescriptorProto_TYPE_BYTES || ty == descriptor.FieldDescriptorProto_TYPE_ENUM || ty == descriptor.FieldDescriptorProto_TYPE_MESSAGE
+// a field is unmappable exactly in these three cases
+//@ ensures [C18] (result1 != nil) == ((isT && c.config.TimeType == nil) || (!isT && isD && c.config.DurationType == nil) || (!isT && !isD && !known))
 
 // ===================================================================== imports.go (C13, C01)
 
@@ -247,17 +252,18 @@ package main
 
 //@ define qualOf(i, path) = ite(has(i.qualifiers, path), i.qualifiers[path].Name(), i.pluginImports.NewImport(ite(has(i.importPathOverrides, path), i.importPathOverrides[path], path)).Name())
 //@ define qualified(i, typ, mod) = mod + qualOf(i, typ[0:strings.LastIndex(i.typBeforeBracket(typ), ".")]) + "." + typ[strings.LastIndex(i.typBeforeBracket(typ), ".")+1:len(typ)]
-//@ define cacheOK(i, typ) = imp(has(i.qualifiers, typ[0:strings.LastIndex(i.typBeforeBracket(typ), ".")]), i.qualifiers[typ[0:strings.LastIndex(i.typBeforeBracket(typ), ".")]] != nil)
+// registered import qualifiers are never nil
+//@ mapinv map[string]generator.Single nonnil
 
 // <mod><qualifier>.<Name>: the package part (everything before the last dot outside a call's
 // argument list) is replaced by the import qualifier; import_path_overrides are honoured
 //@ func Imports.appendQual
-//@ requires i.pluginImports != nil && i.qualifiers != nil && strcontains(i.typBeforeBracket(typ), ".") && cacheOK(i, typ)
+//@ requires i.pluginImports != nil && i.qualifiers != nil && strcontains(i.typBeforeBracket(typ), ".")
 //@ modifies i.qualifiers[_]
 //@ ensures [C13,C01] result == old(qualified(i, typ, mod))
 
 //@ func Imports.WithType
-//@ requires i.pluginImports != nil && i.qualifiers != nil && cacheOK(i, first(i.typAndMod(t)))
+//@ requires i.pluginImports != nil && i.qualifiers != nil
 //@ define typ0 = first(i.typAndMod(t))
 //@ define mod0 = second(i.typAndMod(t))
 //@ modifies i.qualifiers[_]
@@ -266,7 +272,7 @@ package main
 
 // types of the struct package get the struct package's qualifier unless already qualified or builtin
 //@ func Imports.PrependPackageNameIfMissing
-//@ requires i.pluginImports != nil && i.qualifiers != nil && !strcontains(pkg, "(") && cacheOK(i, pkg + "." + first(i.typAndMod(t)))
+//@ requires i.pluginImports != nil && i.qualifiers != nil && !strcontains(pkg, "(")
 //@ define typ0 = first(i.typAndMod(t))
 //@ define mod0 = second(i.typAndMod(t))
 //@ define keep = strcontains(i.typBeforeBracket(typ0), ".") || pkg == "" || i.isBuiltinType(typ0)
@@ -333,6 +339,221 @@ package main
 //@ ensures [C10] result != nil && fresh(result) && result.Kind == PrimitiveKind && result.Name == "active" && result.NameSnake == "active" && result.IsComputed && !result.IsRequired && result.IsPlaceholder
 //@ ensures [C10] result.Type == "github.com/hashicorp/terraform-plugin-framework/types.BoolType" && result.ElemValueType == "github.com/hashicorp/terraform-plugin-framework/types.Bool" && result.GoType == "bool"
 //@ ensures [C10] result.Path == basePath + ".active" && result.OneOfName == "" && !result.ParentIsOptionalEmbed && !result.IsNullable && result.Message == nil
+
+// ===================================================================== building messages and fields (field.go, message.go)
+
+//@ define wfp(p) = p != nil && p.Config != nil && p.Generator != nil && p.Imports.pluginImports != nil && p.Imports.qualifiers != nil
+//@ define wfm(m) = m.plugin != nil && wfp(m.plugin) && m.config == m.plugin.Config && m.imports == &m.plugin.Imports && m.gen == m.plugin.Generator && m.desc != nil && m.path != ""
+// descriptor well-formedness as protoc guarantees it (part of the supported fragment D)
+//@ define wfd(c) = c.field.Type != nil && c.field.GetName() != "" && imp(c.field.OneofIndex != nil, 0 <= *c.field.OneofIndex && *c.field.OneofIndex < len(c.desc.OneofDecl) && c.desc.OneofDecl[*c.field.OneofIndex] != nil && c.desc.OneofDecl[*c.field.OneofIndex].GetName() != "")
+
+//@ func NewMessageBuildContext
+//@ requires plugin != nil && desc != nil
+//@ ensures result.plugin == plugin && result.imports == &plugin.Imports && result.config == plugin.Config && result.gen == plugin.Generator && result.desc == desc && result.path == path
+
+// the field's option keys: Message.Field and <path of the message>.Field; its position in the message
+// (comments are looked up by it) must be its declaration index
+//@ func NewFieldBuildContext
+//@ requires wfm(m) && field != nil && field.FieldDescriptorProto != nil && !strcontains(m.config.DefaultPackageName, "(")
+//@ requires [C10,C11] 0 <= index && index < len(m.desc.GetField()) && field.FieldDescriptorProto == m.desc.GetField()[index]
+//@ define fname = field.GetName()
+//@ define mname = m.desc.GetName()
+//@ modifies m.imports.qualifiers[_]
+//@ ensures [C18] imp(result1 != nil, result0 == nil)
+//@ ensures [C11] imp(result1 == nil, result0 != nil && fresh(result0) && result0.typeName == mname + "." + fname && result0.path == ite(gogoproto.IsEmbed(field.FieldDescriptorProto), mname, m.path + "." + fname))
+//@ ensures [C11,C10] imp(result1 == nil, result0.field == field && result0.index == index && same(result0.MessageBuildContext, m) && result0.imports == m.imports)
+
+// a selected (or nested) message is either built completely or fails; an unselected root is skipped
+//@ func BuildMessage
+//@ propagates [C18]
+//@ ghost j0 int
+//@ requires wfp(plugin) && descOK(plugin.Generator, desc, j0) && (isRoot || path != "") && imp(isRoot, desc.GetName() != "") && !strcontains(plugin.Config.DefaultPackageName, "(")
+//@ define pkg = plugin.Config.DefaultPackageName
+//@ define name = desc.GetName()
+//@ modifies plugin.Messages, plugin.Imports.qualifiers[_]
+//@ ensures [C12] imp(isRoot && !has(plugin.Config.Types, name), result0 == nil && result1 == nil)
+//@ ensures [C18] imp(result1 != nil, result0 == nil)
+//@ ensures [C18,C12] imp(!isRoot || has(plugin.Config.Types, name), result0 != nil || result1 != nil)
+//@ ensures [C12,C11,C02,C13] imp(result0 != nil, fresh(result0) && result0.IsRoot == isRoot && result0.Name == name && result0.Path == ite(isRoot, name, path) && result0.GoType == ite(pkg == "", name, pkg + "." + name))
+//@ ensures [C10,C01] imp(result0 != nil, result0.IsEmpty == (len(desc.GetField()) == 0))
+//@ ensures imp(result0 != nil && 0 <= j0 && j0 < len(result0.Fields), result0.Fields[j0] != nil && fresh(result0.Fields[j0]))
+//@ ensures [C10] imp(result0 != nil && has(plugin.Config.InjectedFields, result0.Path), same(result0.InjectedFields, plugin.Config.InjectedFields[result0.Path]))
+//@ ensures wfp(plugin)
+
+// every field is built in declaration order; the first error fails the whole message
+//@ func BuildFields
+//@ propagates [C18]
+//@ ghost j0 int
+//@ requires wfm(m) && m.desc.DescriptorProto != nil && !strcontains(m.config.DefaultPackageName, "(")
+//@ requires descOK(m.gen, m.desc, j0)
+//@ modifies m.plugin.Messages, m.plugin.Imports.qualifiers[_]
+//@ invariant[0] wfm(m) && same(messageFields, m.desc.GetField())
+//@ invariant[0] fresh(fields) && !isnilslice(fields)
+//@ invariant[0] imp(0 <= j0 && j0 < len(fields), fields[j0] != nil && fresh(fields[j0]))
+//@ ensures [C18] imp(result1 != nil, isnilslice(result0))
+//@ ensures [C10] imp(len(m.desc.GetField()) == 0, result1 == nil && len(result0) == 1 && result0[0] != nil && result0[0].IsPlaceholder && result0[0].NameSnake == "active")
+//@ ensures imp(result1 == nil && 0 <= j0 && j0 < len(result0), result0[j0] != nil && fresh(result0[j0]))
+//@ ensures wfp(m.plugin)
+
+//@ define fieldOK(g, d, fd) = fd != nil && fd.Type != nil && fd.GetName() != "" && noStd(fd) && imp(fd.OneofIndex != nil, 0 <= *fd.OneofIndex && *fd.OneofIndex < len(d.OneofDecl) && d.OneofDecl[*fd.OneofIndex] != nil && d.OneofDecl[*fd.OneofIndex].GetName() != "") && imp(g.IsMap(fd), mapOK(g, fd))
+//@ define mapOK(g, fd) = g.GoMapType(nil, fd) != nil && imp(g.GoMapType(nil, fd).ValueField != nil, g.GoMapType(nil, fd).ValueField.Type != nil && g.GoMapType(nil, fd).ValueField.GetName() != "" && g.GoMapType(nil, fd).ValueField.OneofIndex == nil && noStd(g.GoMapType(nil, fd).ValueField) && !gogoproto.IsEmbed(g.GoMapType(nil, fd).ValueField) && !g.IsMap(g.GoMapType(nil, fd).ValueField))
+//@ define descOK(g, d, j) = d != nil && d.DescriptorProto != nil && imp(0 <= j && j < len(d.OneofDecl), d.OneofDecl[j] != nil && d.OneofDecl[j].GetName() != "") && imp(0 <= j && j < len(d.GetField()), fieldOK(g, d, d.GetField()[j]))
+//@ define wfc2(c) = wfc(c) && wfm(c.MessageBuildContext) && c.imports == c.MessageBuildContext.imports && wfd(c) && c.path != "" && !strcontains(c.config.DefaultPackageName, "(")
+//@ define noStd(p) = !gogoproto.IsStdDouble(p) && !gogoproto.IsStdFloat(p) && !gogoproto.IsStdInt64(p) && !gogoproto.IsStdUInt64(p) && !gogoproto.IsStdInt32(p) && !gogoproto.IsStdUInt32(p) && !gogoproto.IsStdBool(p) && !gogoproto.IsStdString(p) && !gogoproto.IsStdBytes(p)
+//@ define excludedF(c) = has(c.config.ExcludeFields, c.typeName) || has(c.config.ExcludeFields, c.path)
+//@ define flagF(c, m) = has(m, c.typeName) || has(m, c.path)
+
+//@ func FieldBuildContext.GetMessageDescriptor
+//@ pure
+//@ ghost j0 int
+//@ requires c != nil && c.gen != nil && c.field != nil && c.field.FieldDescriptorProto != nil
+//@ ensures [C18] imp(result1 == nil, result0 != nil && descOK(c.gen, result0, j0))
+//@ ensures [C18] imp(result1 != nil, result0 == nil)
+
+// a nested message is built with the path of the field that refers to it (so that per-path options
+// reach it), and registered; failure to build it fails the field
+//@ func Field.getMessage
+//@ propagates [C18]
+//@ requires f != nil && wfc2(c)
+//@ modifies c.plugin.Messages, c.plugin.Imports.qualifiers[_]
+//@ ensures [C18] imp(result1 != nil, result0 == nil)
+//@ ghost j0 int
+//@ ensures [C18] imp(result1 == nil, result0 != nil)
+//@ ensures [C11,C12,C02,C10] imp(result1 == nil, fresh(result0) && !result0.IsRoot && result0.Path == c.path)
+//@ ensures imp(result1 == nil && 0 <= j0 && j0 < len(result0.Fields), result0.Fields[j0] != nil && fresh(result0.Fields[j0]))
+//@ ensures wfp(c.plugin)
+
+//@ func Field.setMessage
+//@ propagates [C18]
+//@ requires f != nil && wfc2(c)
+//@ modifies f.Message, c.plugin.Messages, c.plugin.Imports.qualifiers[_]
+//@ ghost j0 int
+//@ ensures [C18,C11,C12,C02,C10] imp(result == nil, f.Message != nil && fresh(f.Message) && !f.Message.IsRoot && f.Message.Path == c.path)
+//@ ensures imp(result == nil && 0 <= j0 && j0 < len(f.Message.Fields), f.Message.Fields[j0] != nil && fresh(f.Message.Fields[j0]))
+//@ ensures wfp(c.plugin)
+
+// maps must have string keys
+//@ func FieldBuildContext.GetMapValueFieldDescriptorAndType
+//@ requires wfc2(c)
+//@ define mt = c.gen.GoMapType(nil, c.field.FieldDescriptorProto)
+//@ requires mt != nil
+//@ modifies c.plugin.Imports.qualifiers[_]
+//@ ensures [C18] imp(first(c.gen.GoType(c.desc, mt.KeyField)) != "string", result2 != nil)
+//@ ensures [C18] imp(result2 == nil, result1 != nil && result1.FieldDescriptorProto != nil && result1.FieldDescriptorProto == mt.ValueField)
+//@ ensures [C18] imp(result2 != nil, result1 == nil)
+
+//@ func NewMapValueFieldBuildContext
+//@ requires c != nil && wfc2(c) && field != nil
+//@ modifies c.plugin.Imports.qualifiers[_]
+//@ ensures [C11] result1 == nil && result0 != nil && fresh(result0) && result0.typeName == c.typeName && result0.path == c.path && result0.field == field && result0.index == index
+//@ ensures same(result0.MessageBuildContext, c.MessageBuildContext) && result0.imports == c.imports
+
+//@ func Field.getMapValueField
+//@ propagates [C18]
+//@ requires f != nil && wfc2(c) && mapOK(c.gen, c.field.FieldDescriptorProto)
+//@ modifies c.plugin.Messages, c.plugin.Imports.qualifiers[_]
+//@ ensures [C18] imp(result2 != nil, isnilslice(result1))
+//@ ensures [C18] imp(result2 == nil && len(result1) > 0, result1[0] != nil)
+//@ ensures wfp(c.plugin)
+
+//@ func Field.setMapValues
+//@ propagates [C18]
+//@ requires f != nil && wfc2(c) && mapOK(c.gen, c.field.FieldDescriptorProto)
+//@ modifies *f, c.plugin.Messages, c.plugin.Imports.qualifiers[_]
+//@ ensures [C18] imp(result == nil, f.MapValueField != nil)
+//@ ensures f.Name == old(f.Name) && f.NameSnake == old(f.NameSnake) && f.Path == old(f.Path) && f.IsRequired == old(f.IsRequired) && f.IsComputed == old(f.IsComputed) && f.IsSensitive == old(f.IsSensitive) && f.IsMap == old(f.IsMap) && f.IsRepeated == old(f.IsRepeated) && same(f.Validators, old(f.Validators)) && same(f.PlanModifiers, old(f.PlanModifiers)) && f.Comment == old(f.Comment) && f.IsMessage == old(f.IsMessage) && f.IsCustomType == old(f.IsCustomType) && f.OneOfName == old(f.OneOfName)
+//@ ensures wfp(c.plugin)
+
+// One Field per field: an excluded field yields nothing before anything else is looked at; a field
+// that cannot be mapped fails; otherwise name, path, flags and kind follow descriptor and configuration
+//@ func BuildField
+//@ propagates [C18]
+//@ ghost j0 int
+//@ requires c != nil && wfc2(c) && noStd(c.field.FieldDescriptorProto) && c.desc.DescriptorProto != nil
+//@ requires imp(c.gen.IsMap(c.field.FieldDescriptorProto), mapOK(c.gen, c.field.FieldDescriptorProto))
+//@ # children of a nullable embedded message: every child of the (freshly built) message is marked
+//@ define kids = entry(outer(f).Message.Fields)
+//@ invariant[0] wfp(c.plugin) && fresh(children) && !isnilslice(children) && len(children) == idx
+//@ invariant[0] imp(0 <= j0 && j0 < len(kids), kids[j0] != nil && fresh(kids[j0]))
+//@ invariant[0] imp(0 <= j0 && j0 < len(children), children[j0] != nil && fresh(children[j0]))
+//@ define p = c.field.FieldDescriptorProto
+//@ define tterr = second(c.GetTerraformType())
+//@ define isMsg = first(c.GetTerraformType()).IsMessage
+//@ define flat = isMsg && !c.gen.IsMap(p) && gogoproto.IsEmbed(p)
+//@ define one = !excludedF(c) && result1 == nil && !flat
+//@ modifies c.plugin.Messages, c.plugin.Imports.qualifiers[_]
+//@ ensures [C11,C18] imp(excludedF(c), isnilslice(result0) && result1 == nil)
+//@ ensures [C18] imp(!excludedF(c) && tterr != nil, result1 != nil)
+//@ ensures [C18] imp(result1 != nil, isnilslice(result0))
+//@ ensures [C02,C11] imp(one, len(result0) == 1 && result0[0] != nil && fresh(result0[0]))
+//@ ensures [C02,C11] imp(one, result0[0].NameSnake == c.GetNameSnake() && result0[0].Path == c.path && result0[0].Name == c.GetName())
+//@ ensures [C10,C11] imp(one, result0[0].IsRequired == flagF(c, c.config.RequiredFields) && result0[0].IsComputed == flagF(c, c.config.ComputedFields) && result0[0].IsSensitive == flagF(c, c.config.SensitiveFields))
+//@ ensures [C02,C17] imp(one, result0[0].IsCustomType == c.IsCustomType() && result0[0].IsMap == c.gen.IsMap(p) && result0[0].IsMessage == isMsg)
+//@ ensures [C02,C17] imp(one && !result0[0].IsMap, result0[0].Kind == ite(result0[0].IsCustomType, CustomKind, ite(result0[0].IsRepeated && isMsg, ObjectListKind, ite(result0[0].IsRepeated, PrimitiveListKind, ite(isMsg, ObjectKind, PrimitiveKind)))))
+//@ ensures [C11,C12] imp(one && isMsg && !result0[0].IsMap && result0[0].Message != nil, result0[0].Message.Path == c.path)
+//@ ensures imp(result1 == nil && 0 <= j0 && j0 < len(result0), result0[j0] != nil && fresh(result0[j0]))
+//@ ensures wfp(c.plugin)
+
+// ---- comments (C10): the leading comment of the declaration, flattened to one trimmed line
+
+//@ func Comment.ToSingleLine
+//@ deterministic
+//@ ghost j0 int
+//@ define orig = old(strings.Split(string(s), "\n"))
+//@ invariant[0] same(lines, orig) && len(lines) >= 1
+//@ invariant[0] imp(0 <= j0 && j0 < len(lines), lines[j0] == ite(done(j0), strings.TrimSpace(old(orig[j0])), old(orig[j0])))
+//@ invariant[0] lines[0] == ite(idx > 0, strings.TrimSpace(old(orig[0])), old(orig[0]))
+//@ ensures [C10] imp(s == "", result == "")
+//@ ensures [C10] !prefix(result, " ") && !suffix(result, " ") && !prefix(result, "\n") && !suffix(result, "\n") && !prefix(result, "\r") && !suffix(result, "\r") && !prefix(result, "\t") && !suffix(result, "\t")
+
+// the source-location path of a declaration as a comma-separated string (assumed a function of the location)
+//@ func MessageBuildContext.GetLocationPath
+//@ trusted
+//@ deterministic
+
+// a field's comment is the leading comment of the first location of the field's own file whose path is
+// <message path>,2,<declaration index>
+//@ func FieldBuildContext.GetComment
+//@ pure
+//@ requires c != nil && c.desc != nil && c.desc.File() != nil
+//@ ghost j0 int
+//@ define locs = c.desc.File().GetSourceCodeInfo().GetLocation()
+//@ define want = c.desc.Path() + ",2," + strconv.Itoa(c.index)
+//@ define lp(j) = c.GetLocationPath(locs[j])
+//@ define cmt(j) = Comment(strings.TrimSpace(strings.Trim(locs[j].GetLeadingComments(), "\n"))).ToSingleLine()
+//@ invariant[0] imp(done(j0), lp(j0) != want)
+//@ ensures [C10,C12,C11] imp(idx >= 0, lp(idx) == want && result == cmt(idx))
+//@ ensures [C10,C12,C11] imp(idx >= 0 && 0 <= j0 && j0 < idx, lp(j0) != want)
+//@ ensures [C10,C12,C11] imp(idx < 0, result == "")
+//@ ensures [C10,C12,C11] imp(idx < 0 && 0 <= j0 && j0 < len(locs), lp(j0) != want)
+
+//@ func MessageBuildContext.GetComment
+//@ pure
+//@ requires c.desc != nil && c.desc.File() != nil
+//@ ghost j0 int
+//@ define locs = c.desc.File().GetSourceCodeInfo().GetLocation()
+//@ define want = c.desc.Path()
+//@ define lp(j) = c.GetLocationPath(locs[j])
+//@ define cmt(j) = Comment(strings.Trim(locs[j].GetLeadingComments(), "\n")).ToSingleLine()
+//@ invariant[0] imp(done(j0), lp(j0) != want)
+//@ ensures [C10,C12] imp(idx >= 0, lp(idx) == want && result == cmt(idx))
+//@ ensures [C10,C12] imp(idx >= 0 && 0 <= j0 && j0 < idx, lp(j0) != want)
+//@ ensures [C10,C12] imp(idx < 0, result == "")
+//@ ensures [C10,C12] imp(idx < 0 && 0 <= j0 && j0 < len(locs), lp(j0) != want)
+
+// one reset statement per oneof group of the message, named like the Go field of the group
+//@ func MessageBuildContext.GetOneOfNames
+//@ requires c != nil && c.desc != nil && c.desc.DescriptorProto != nil && c.config != nil
+//@ ghost j0 int
+//@ ghost i0 int
+//@ requires imp(0 <= j0 && j0 < len(c.desc.OneofDecl), c.desc.OneofDecl[j0] != nil && c.desc.OneofDecl[j0].GetName() != "")
+//@ define nm(j) = c.desc.OneofDecl[j].GetName()
+//@ define camel(n) = ite(n[0:1] == strings.ToLower(n[0:1]), strcase.UpperCamelCase(n), n)
+//@ invariant[0] len(s) == len(c.desc.OneofDecl) && fresh(s) && !isnilslice(s)
+//@ invariant[0] imp(done(j0), s[j0] == camel(nm(j0)))
+//@ ensures [C07,C15] len(result) == len(c.desc.OneofDecl)
+//@ ensures [C07,C15] imp(0 <= j0 && j0 < len(result), result[j0] == camel(nm(j0)))
+//@ ensures [C15] imp(c.config.Sort && 0 <= i0 && i0 < j0 && j0 < len(result), result[i0] <= result[j0])
 
 // ===================================================================== CopyFrom, emitted code
 
